@@ -176,7 +176,7 @@ class BodyParser:
                     e = self.ix.pair[e] + 1 if st[e].t in ("(", "[", "{") else e + 1
                 txt = self.text(k, e - 1)
                 if txt.strip() == "break":
-                    body = [Node("break", i0=k, text="break")]
+                    body = [Node("break", i0=k, text="break", expr=True)]
                 else:
                     body = [Node("other", i0=k, text=txt)]
                 k = e
@@ -747,7 +747,33 @@ def c07_emit(ix, ed, f, info, alphabet):
         for t in a["toks"]:
             cases.append("Token::%s => %dint," % (t, a["lbp"]))
     spec = "// [C07] left binding power of the operator tokens of rule `%s`, from the grammar text (branch order, `right` declarations)\n" % rule
-    spec += "pub open spec fn %s(t: Token) -> int { match t { %s _ => 0int } }\n" % (fn, " ".join(cases))
+    spec += "#[verifier::opaque]\npub open spec fn %s(t: Token) -> int { match t { %s _ => 0int } }\n" % (fn, " ".join(cases))
+    # the table, one implication per operator token (the function itself is opaque: a rule with a dozen
+    # operator arms otherwise makes the solver case-split on the whole table at every recursive call)
+    optoks = [(t, a["lbp"]) for a in info["arms"] for t in a["toks"]]
+    imps = ["(t == Token::%s ==> %s(t) == %d)" % (t, fn, l) for t, l in optoks]
+    imps.append("(%s ==> %s(t) == 0)" % (" && ".join("t != Token::%s" % t for t, _ in optoks) or "true", fn))
+    spec += "pub proof fn lemma_c07_lbp_%s(t: Token)\n    ensures\n        %s\n{ reveal(%s); }\n" % (rule, "\n        ".join(i + ",   // [C07]" for i in imps), fn)
+
+    def breaks(stmts, acc):
+        for s in stmts:
+            if s.kind == "break":
+                acc.append(s)
+            elif s.kind == "match":
+                for a in s.arms:
+                    breaks(a.body, acc)
+            elif s.kind == "if":
+                breaks(s.then, acc)
+                if s.els:
+                    breaks(s.els, acc)
+    bl = []
+    breaks(info["loop"].body, bl)
+    for b in bl:
+        call = "proof { lemma_c07_lbp_%s(parser.current); }" % rule
+        if getattr(b, "expr", False):
+            ed.replace(st[b.i0].s, st[b.i0].e, "{ %s break }" % call)
+        else:
+            ed.insert(st[b.i0].s, call + " ")
     # the table satisfies the property's inequalities
     facts = []
     for a in info["arms"]:
